@@ -129,6 +129,7 @@ package larking
 //@   ensures [bounds] 0 <= n && n <= len(dst)
 //@   ensures [limit] err == nil && limit > 0 ==> n <= limit
 //@   ghost at "if n < 0 {" hv = n#2
+//@   assert at "if size > math.MaxInt || (limit > 0 && size > uint64(limit)) {" [varint] VarintAt(rdS(r), g0, hv) && size == VarintVal(rdS(r)[g0:], hv) && hv <= len(b)
 //@   ensures [hdr-len] err == nil ==> Hdr(dst, r, g0) == hv
 //@   ensures [header] err == nil ==> VarintAt(rdS(r), g0, hv) && n == VarintVal(rdS(r)[g0:], hv)
 //@   ensures [conserve] err == nil ==> 0 <= Hdr(dst, r, g0) && Hdr(dst, r, g0) <= 10 && Buffered(dst, r, g0 + Hdr(dst, r, g0))
@@ -136,7 +137,6 @@ package larking
 //@   ensures [too-large-only-over-limit] errtype(err, "*protodelim.SizeTooLargeError") ==> VarintVal(rdS(r)[g0:], hv) > limit
 //@   ensures [clean-eof] err == io.EOF ==> len(dst) == 0
 //@   oracle (n >= 0 && n <= len(dst)) && (err != io.EOF || len(dst) == 0)
-//@   assert at "if n < 0 {" [varint] n#2 >= 0 ==> VarintAt(rdS(r), g0, n#2) && size == VarintVal(rdS(r)[g0:], n#2) && n#2 <= len(b)
 //@   assert at "if len(b) < n {" [after-header] Buffered(b, r, g0 + hv)
 //@   assert at "if _, err := io.ReadFull(r, b[len(b):n]); err != nil {" [before-fill] Buffered(b, r, g0 + hv) && len(b) < n#2 && n#2 <= cap(b)
 //@   loop 1 invariant 0 <= i && i <= 10 && Buffered(b, r, g0) && (base(b) == base(old(b)) || isfresh(b))
